@@ -111,6 +111,25 @@ PROPS['C04'] = {
 }
 
 
+PROPS['C07'] = {
+    'theorems': ['RQ.pairsOK_related', 'RQ.pairsOK_mentioned', 'RQ.C07_pairs', 'RQ.C07', 'RQ.C07_total', 'RQ.C07_disjoint'],
+    'jobs': [{'quick': ['dist', 'seed={seed}', 'n=30000', 'names=4', 'len=3'],
+              'thorough': ['dist', 'seed={seed}', 'n=400000', 'names=5', 'len=4']}],
+    'nontrivial': lambda l: l.split('|')[3].count(';') >= 1 and re.search(r'\d:\d', l.split('|')[3]) is not None,
+    'histogram': lambda c, d: ['pairs=%d' % min(9, (c.split('|')[3].count(';') + 1 if c.split('|')[3] != '-' else 0)),
+                               'threads=' + c.split('|')[2]],
+    'rule': "exhaustive: every sequence of <= 3 (thorough: 4) pairs (name, optional related name) over 4 (thorough: 5) names, "
+            "each with thread counts 1, 2, 3, 4096; plus random sequences of up to 24 pairs over 2-13 names, thread counts "
+            "1..4096. distinct = hash of input; non-trivial = at least two pairs, one of them relating two names",
+    'explanation': "Theorem C07: for every sequence of pairs (any order, any multiplicity) and every positive thread count, names "
+                   "in the equivalence closure of the pairs get the same worker from FilenameDistributor add/build (union-find "
+                   "invariant: parents point to smaller indices, unions are root-to-root, one compression pass reaches roots); "
+                   "C07_disjoint: entries on different workers share no name. pairsOK (which implies the closure statement by "
+                   "pairsOK_related) is evaluated on the real FilenameDistributor's assignment; exhaustive for short sequences.",
+    'assumptions': ["HashMap<T, usize> modelled as insertion-ordered name list", "thread count > 0 (rayon guarantees it)"],
+}
+
+
 def replay_engine(path):
     first = ''
     for l in open(path):
